@@ -584,8 +584,133 @@ def r4_growth_keeps_records(ctx, rid):
 
 
 # ------------------------------------------------------------------------------------------------
+def _canonical_query(ctx, rid, f0):
+    """The query method in its canonical shape - three returns (two clamps, one interpolation), each value spelt at its return - with
+    a single-entry MEMO (`if t == self.A: return self.B` ... `self.A = t; self.B = y`) taken out and reported separately.
+    Returns (function to analyse, memo description or None)."""
+    from engine.inline import clone, _mk, InlinedFunction
+    from engine.srcmodel import set_parents
+    selfn = f0.self_name
+    tpar = [p for p in f0.params if p != selfn]
+    if len(tpar) != 1:
+        return f0, None
+    tname = tpar[0]
+    node = clone(f0.node)
+    body = [st for st in node.body if not (isinstance(st, ast.Expr) and isinstance(st.value, ast.Constant))]
+
+    def sattr(e):
+        return e.attr if isinstance(e, ast.Attribute) and isinstance(e.value, ast.Name) and e.value.id == selfn else None
+
+    def is_t(e):
+        e = _strip_float(e)
+        return isinstance(e, ast.Name) and e.id == tname
+    memo = None
+    for st in list(body):
+        if isinstance(st, ast.If) and not st.orelse and len(st.body) == 1 and isinstance(st.body[0], ast.Return) and sattr(st.body[0].value) \
+                and isinstance(st.test, ast.Compare) and len(st.test.ops) == 1 and isinstance(st.test.ops[0], ast.Eq):
+            l, r = st.test.left, st.test.comparators[0]
+            key = sattr(r) if is_t(l) else (sattr(l) if is_t(r) else None)
+            if key:
+                memo = {"key": key, "val": sattr(st.body[0].value), "hit": st}
+                body.remove(st)
+                break
+    stores = []
+    if memo:
+        class _Strip(ast.NodeTransformer):
+            def visit_Assign(self, st):
+                if len(st.targets) == 1 and sattr(st.targets[0]) in (memo["key"], memo["val"]):
+                    stores.append(st)
+                    return None
+                return st
+        new_body = []
+        for st in body:
+            r = _Strip().visit(st)
+            if r is not None:
+                new_body.append(r)
+        body = new_body
+        memo["stores"] = stores
+    # `if ..: y = a  elif ..: y = b  else: ...; y = c` followed by `return y`  ->  a return in every arm
+    if body and isinstance(body[-1], ast.Return) and isinstance(body[-1].value, ast.Name) and len(body) >= 2 and isinstance(body[-2], ast.If):
+        yname = body[-1].value.id
+
+        def push(stmts):
+            """turn the last statement of the block into a return of y's value; False if the block does not end in `y = e` / if-chain"""
+            if not stmts:
+                return False
+            last = stmts[-1]
+            if isinstance(last, ast.Assign) and len(last.targets) == 1 and isinstance(last.targets[0], ast.Name) and last.targets[0].id == yname:
+                stmts[-1] = ast.copy_location(ast.Return(value=last.value), last)
+                return True
+            if isinstance(last, ast.If) and last.orelse:
+                return push(last.body) and push(last.orelse)
+            return False
+        chain = body[-2]
+        if chain.orelse and push(chain.body) and push(chain.orelse):
+            body = body[:-1]
+    node.body = body
+    ast.fix_missing_locations(node)
+    set_parents(node)
+    node._parent = getattr(f0.node, "_parent", None)
+    fi = _mk(InlinedFunction, f0, node)
+    fi.origin = f0
+    return fi, memo
+
+
+def _memo_obligations(ctx, rid, f0, memo):
+    """A single-entry memo of the query: the stored key is the query time, the stored value the answer returned for it, and an answer
+    that is clamped to the NEWEST record - it changes with the next update - is never stored."""
+    selfn = f0.self_name
+    cfg = ctx.cfg(f0)
+    tpar = [p for p in f0.params if p != selfn][0]
+
+    def sattr(e):
+        return e.attr if isinstance(e, ast.Attribute) and isinstance(e.value, ast.Name) and e.value.id == selfn else None
+    stores = [st for st in cfg.stmts() if isinstance(st, ast.Assign) and len(st.targets) == 1 and sattr(st.targets[0]) in (memo["key"], memo["val"])]
+    keys = [st for st in stores if sattr(st.targets[0]) == memo["key"]]
+    vals = [st for st in stores if sattr(st.targets[0]) == memo["val"]]
+    if not keys or not vals:
+        raise AnalysisError(f"{rid}: the query memo `{memo['key']}` / `{memo['val']}` is consulted but never filled in __call__ (unrecognised form)")
+    for st in keys:
+        if not (isinstance(_strip_float(st.value), ast.Name) and _strip_float(st.value).id == tpar):
+            ctx.violation(rid, f0, st, f"the memo key `{norm(st)}` is not the query time", label="query memo: key is the query time")
+            return
+    # the newest-record clamp: an if whose test compares the query with the last recorded time (>=, >)
+    def is_tail_test(test):
+        for c in ast.walk(_N(ctx, f0, test)):
+            if isinstance(c, ast.Compare) and len(c.ops) == 1:
+                sides = [c.left, c.comparators[0]]
+                for a, b in (sides, sides[::-1]):
+                    if isinstance(_strip_float(a), ast.Name) and _strip_float(a).id == tpar and isinstance(b, ast.Subscript) \
+                            and _is_self_attr(b.value, selfn, "_t") and ast.unparse(b.slice) in ("-1", "self._n - 1"):
+                        op = c.ops[0] if a is sides[0] else {ast.Lt: ast.Gt(), ast.LtE: ast.GtE(), ast.Gt: ast.Lt(), ast.GtE: ast.LtE()}.get(type(c.ops[0]), c.ops[0])
+                        if isinstance(op, (ast.GtE, ast.Gt)):
+                            return True
+        return False
+    tails = [s for s in cfg.stmts() if isinstance(s, ast.If) and is_tail_test(s.test)]
+    if not tails:
+        raise AnalysisError(f"{rid}: cannot find the newest-record clamp of __call__ to check the query memo against (unrecognised form)")
+    bad = None
+    for tl in tails:
+        for st in vals:
+            # a path from the clamp's TRUE arm to the store
+            for succ in cfg.successors(tl, "true"):
+                if succ is st or cfg.reachable(succ, st):
+                    bad = (tl, st)
+    if bad:
+        tl, st = bad
+        ctx.violation(rid, f0, st, f"`{norm(st)}` also memoises an answer that was clamped to the newest record (`{norm(tl)[:50]}`): that answer "
+                                   f"changes with the next update, so a repeated query for the same time after an update returns the stale "
+                                   f"old last record instead of the interpolant", label="query memo: only answers that cannot change are stored")
+    else:
+        ctx.ok(rid, f0, vals[0], "the query memo stores only answers before the newest record (append-only records cannot change them)",
+               {"memo": [memo["key"], memo["val"]]}, label="query memo: only answers that cannot change are stored")
+
+
 def r5_query(ctx, rid):
-    f = get_method(ctx, _cls(ctx), "__call__")
+    f0 = get_method(ctx, _cls(ctx), "__call__")
+    f, memo = _canonical_query(ctx, rid, f0)
+    if memo:
+        _memo_obligations(ctx, rid, f0, memo)
     selfn = f.self_name
     cfg = ctx.cfg(f)
     tpar = [p for p in f.params if p != selfn]
@@ -613,6 +738,15 @@ def r5_query(ctx, rid):
     def cmp_parts(g):
         """(op, time-list index) with the query on the left-hand side (operands swapped if necessary)."""
         t = _N(ctx, f, g.test)
+        if isinstance(t, ast.BoolOp) and isinstance(t.op, ast.And):
+            # `t >= t[-1] and t > t[0]`: the extra conjunct only sends the single-record case (t == t[0] == t[-1]) to the lower clamp,
+            # which returns the same row; the deciding conjunct is the comparison with the last recorded time
+            subs_ = [cmp_parts(ast.If(test=v, body=[], orelse=[])) for v in t.values]
+            last_ = [c for c in subs_ if c is not None and c[1] == -1]
+            rest_ = [c for c in subs_ if c is None or c[1] != -1]
+            if len(last_) == 1 and all(c is not None and c[1] == 0 and c[0] in (ast.Gt, ast.GtE) for c in rest_):
+                return last_[0]
+            return None
         if not (isinstance(t, ast.Compare) and len(t.ops) == 1):
             return None
         l, op, r = t.left, t.ops[0], t.comparators[0]
@@ -622,7 +756,26 @@ def r5_query(ctx, rid):
         if is_query(r) and t_index(l) is not None and type(op) in swap:
             return swap[type(op)], t_index(l)
         return None
-    lo, hi, mid = rets
+    # which return is which: by its guard, not by its position (a guard may carry extra conjuncts, e.g. `t >= t[-1] and t > t[0]`)
+    def clamp_kind(ret):
+        g_ = guard_of(ret)
+        if g_ is None:
+            return None
+        t_ = _N(ctx, f, g_.test)
+        parts_ = list(t_.values) if isinstance(t_, ast.BoolOp) and isinstance(t_.op, ast.And) else [t_]
+        for c_ in parts_:
+            fake = ast.If(test=c_, body=[], orelse=[])
+            cp_ = cmp_parts(fake)
+            if cp_ is not None and cp_[1] == 0 and cp_[0] in (ast.LtE, ast.Lt) and len(parts_) == 1:
+                return "lo"
+            if cp_ is not None and cp_[1] == -1 and cp_[0] in (ast.GtE, ast.Gt):
+                return "hi"
+        return None
+    kinds_ = [clamp_kind(r) for r in rets]
+    if sorted(k for k in kinds_ if k) == ["hi", "lo"] and kinds_.count(None) == 1:
+        lo, hi, mid = rets[kinds_.index("lo")], rets[kinds_.index("hi")], rets[kinds_.index(None)]
+    else:
+        lo, hi, mid = rets
     # ---- lower clamp
     g = guard_of(lo)
     if g is None:
